@@ -12,15 +12,12 @@ import traceback
 from collections import Counter
 from typing import Any, Callable, Dict, List, Optional, Tuple
 
-from .common import REPO, VERIF, HarnessError, canon, h8, seed_value, setup_path
+from .common import REPO, VERIF, CaseTimeout, HarnessError, canon, h8, seed_value, setup_path
 
 KNOWN_FILE = os.path.join(VERIF, "KNOWN_FINDINGS.txt")
 OUT = os.environ.get("VERIF_OUT", VERIF)     # where evidence and newly found replays go (selftest redirects it)
 CASE_TIMEOUT = 20
 
-
-class CaseTimeout(BaseException):
-    pass
 
 
 def _alarm(signum: int, frame: Any) -> None:
@@ -140,9 +137,13 @@ class Engine:
 
 def timed_case(engine: Engine, case: Any) -> dict:
     signal.signal(signal.SIGALRM, _alarm)
-    signal.setitimer(signal.ITIMER_REAL, CASE_TIMEOUT)
+    # repeating: if the case's own clean-up (draining the loop) hangs as well, the next alarm breaks that too
+    signal.setitimer(signal.ITIMER_REAL, CASE_TIMEOUT, 3)
     try:
-        return engine.run_case(case)
+        try:
+            return engine.run_case(case)
+        except CaseTimeout:
+            return {"violations": [], "labels": [], "stats": {}, "timeout": True}
     except CaseTimeout:
         return {"violations": [], "labels": [], "stats": {}, "timeout": True}
     finally:
